@@ -104,8 +104,9 @@ def describe(case):
                   "settings": (int(cfg.parallel.num_threads), int(cfg.parallel.max_workers), int(bool(cfg.parallel.use_cache)))}
 
 
-def observe(path, dry, plot):
-    """-> {"raised": None | repr, "final": (nt, mw, uc) with None = not stored, "calls": [((nt, mw, uc), k, i)],
+def observe(path, dry, plot, fail_at=None):
+    """fail_at=j: the j-th single run (counted from 0) raises RuntimeError instead of returning.
+    -> {"raised": None | repr, "final": (nt, mw, uc) with None = not stored, "calls": [((nt, mw, uc), k, i)],
            "plots": [(file name, field token, grid token, (marker x token, marker y token))]}"""
     cli, rc, cp, plotting = _impl()
     import matplotlib
@@ -128,6 +129,8 @@ def observe(path, dry, plot):
         ks = [j for j, t in enumerate(config.towers) if t is tower]
         k = ks[0] if ks else -1
         st = config.met.get_step(met_index)  # IndexError for a step outside the series, as the real single run
+        if fail_at is not None and len(calls) == fail_at:
+            raise RuntimeError("the single run failed (injected by the harness)")
         calls.append((settings_now(), k, met_index))
         base = 1000.0 * k + 10.0 * met_index
         return ResultDict(k, met_index, {"timestamp": st["timestamp"], "tower_name": tower.name, "flx": Tok("flx", k, met_index),
@@ -335,6 +338,22 @@ def oracle_cli(ctx, hints):
             size = len(c["towers"]) * 10 + c["n"] + (5 if c["plot"] else 0)
             if sig not in found or size < found[sig][0]:
                 found[sig] = (size, c, got, want)
+    # a single run that FAILS must not be swallowed: the error reaches the caller, no later run is made, no figure is saved
+    for c in pool:
+        if c["dry"] or not c["valid"] or len(c["towers"]) * c["n"] < 3 or "cli:failing-run-swallowed" in found:
+            continue
+        path, desc = describe(c)
+        if desc is None:
+            continue
+        want = spec(desc, False, c["plot"])
+        if norm(observe(path, False, c["plot"])) != want:
+            continue  # already reported above under its own class
+        want = {"raised": True, "final": want["final"], "calls": want["calls"][:1], "plots": []}
+        got = norm(observe(path, False, c["plot"], fail_at=1))
+        if got != want:
+            sig = "cli:failing-run-swallowed" if not got["raised"] or len(got["calls"]) > 1 else "cli:failing-run-other"
+            if sig not in found:
+                found[sig] = (0, dict(c, fail_at=1), got, want)
     return [{"signature": sig,
              "what": "bldfm run (cli.cmd_run) %s: towers=%r steps=%d dry_run=%r plot=%r settings=%r: observed %s, the property demands %s"
                      % (sig, c["towers"], c["n"], c["dry"], c["plot"], c["settings"], brief(got), brief(want)),
@@ -351,6 +370,12 @@ def brief(o):
 def replay_cli(body):
     c = body["cli"]
     path, desc = describe(c)
+    if c.get("fail_at") is not None:
+        got = norm(observe(path, c["dry"], c["plot"], fail_at=c["fail_at"]))
+        want = spec(desc, c["dry"], c["plot"])
+        want = {"raised": True, "final": want["final"], "calls": want["calls"][:c["fail_at"]], "plots": []}
+        print("case     =", c, "\nimpl     =", got, "\nproperty =", want, "\n" + ("FAILS (a failing single run is swallowed or mishandled)" if got != want else "holds"))
+        return 1 if got != want else 0
     got = norm(observe(path, c["dry"], c["plot"]))
     want = spec(desc, c["dry"], c["plot"])
     print("case     =", c)
